@@ -104,6 +104,10 @@ def run(ctx):
         ctx.check(only_from_worker(h), "R11.5", "%s|only-worker-calls" % h, "a command handler is called only from the worker loop (directly or from another handler)", F.fn(h).where(), str(cs))
     ctx.floor("R11.5", "command handlers", len(handlers), 4)
 
+    # ---- R11.6 a delete is never answered on the spot: it is always queued behind what was submitted before it
+    import c04
+    c04.delete_always_queues(ctx, A, "R11.6")
+
     # ---- R11.4 API: at most one queued command per call, and its acknowledgement is what is returned --
     senders = set(A.send_fns)
     changed = True
